@@ -97,6 +97,7 @@ class Sim:
         self.focus_faults = {(f[0], f[1]): f[2] for f in spec.get('focus_faults', [])}
         self.client_focus_hits = {}
         self.focus_keys = []
+        self.focus_files = ()
         self.instr_key = tuple(spec['instr_fn']) if spec.get('instr_fn') else None
         self.instr_codes = []
         self.focus_hits = 0
@@ -131,6 +132,7 @@ class Sim:
             self.p = st.get('p', 0.5)
             self.focus_keys = [tuple(st['fn'])] if st.get('fn') else []
             self.focus_keys += [tuple(f) for f in st.get('fns', [])]
+            self.focus_files = tuple(st.get('files', []))
         for c, oi, ev in spec.get('gcs_at', []):
             if 0 <= c < len(clients):
                 clients[c].gcs.setdefault(oi, []).append(ev)
@@ -156,6 +158,8 @@ class Sim:
             for fk in self.focus_keys:
                 if code.co_name == fk[1] and code.co_firstlineno == fk[2] and fn.endswith(fk[0]):
                     v |= 4
+            if self.focus_files and fn.endswith(self.focus_files):
+                v |= 4
             ik = self.instr_key
             if ik is not None and code.co_name == ik[1] and code.co_firstlineno == ik[2] and fn.endswith(ik[0]):
                 # bytecode-level pre-emption points inside this one function (local INSTRUCTION events), line level elsewhere
